@@ -284,6 +284,26 @@ func (ch c02) Run(c *core.Ctx) {
 		}
 		strict(conn, what, map[string]any{"mutation": shape, "stream": hexs(stream)})
 	}
+	// (d) statements with very many parameters (declared through the library's ParseParameters
+	// from client-chosen query text): ParameterDescription must stay well-formed
+	if c.Batch == 0 && c.Begin(3000000) {
+		many := &hs.Prog{Stmts: []*hs.Stmt{{ID: "many", ParseParams: true, Ops: []hs.Op{{K: "complete", Tag: "OK"}}}}}
+		sess := &hs.Sess{Default: func(string) *hs.Prog { return many }}
+		conn := env.Dial(sess)
+		conn.NoLog = true
+		in := pg.Startup([][2]string{{"user", "u"}})
+		for _, q := range []string{"select $32767", "select $32768", "select $40000", "select $65534", "select $65535", "select $65535 ?", "select ? $65535 ?", "select $65536", strings.Repeat("?,", 33000), "select $1 $65535 $2"} {
+			in = append(in, pg.Parse("", q, nil)...)
+			in = append(in, pg.Describe('S', "")...)
+			in = append(in, pg.Sync()...)
+			c.Count("huge_parameter_descriptions", 1)
+		}
+		conn.Send(append(in, pg.Terminate()...))
+		conn.CloseWrite()
+		conn.WaitClosed()
+		c.Eval("huge parameter counts", true)
+		strict(conn, "Describe of statements with 32767..65535+ parameters", map[string]any{"workload": "huge parameter counts"})
+	}
 	// (c) buffer.Writer API model
 	for i := 0; i < nwr; i++ {
 		if !c.Begin(2000000+i) || c.NViol() >= 10 {
